@@ -479,16 +479,28 @@ inductive Act where
   | stuck
 deriving Repr, DecidableEq
 
+/-- parser.py:169-184: which `parse_*` function the characters after `<` select (`none` = the `break` of 183-184) -/
+def parseLt (P : Params) (cd : Option PStr) (s : PStr) : Option PR :=
+  if ((s.drop 1).head?.map isAlpha).getD false then some (parseStartTag P cd s)   -- `starttagopen.match`
+  else if sw [60, 47] s then some (parseEndTag P cd s)
+  else if sw [60, 33, 45, 45] s then some (parseComment cd s)
+  else if sw [60, 63] s then some (parsePi cd s)
+  else if sw [60, 33] s then some (parseHtmlDeclaration cd s)
+  else if 1 < s.length then some (.ok (.data [60]) 1 cd)                 -- 180-182
+  else none                                                              -- 183-184 break
+
+/-- parser.py:188-194: how far an unterminated construct reaches when `close()` forces it out as text -/
+def forcedEnd (s : PStr) : Nat :=
+  match findCh 62 (s.drop 1) with
+  | some g => 1 + g + 1
+  | none =>
+    match findCh 60 (s.drop 1) with
+    | some g => 1 + g
+    | none => 1
+
 /-- parser.py:169-199, the `<` branch, on the suffix `s` starting with `<` -/
 def actLt (P : Params) (end_ : Bool) (cd : Option PStr) (s : PStr) : Act :=
-  let r : Option PR :=
-    if (match s.drop 1 with | c :: _ => isAlpha c | [] => false) then some (parseStartTag P cd s)   -- `starttagopen.match`
-    else if sw [60, 47] s then some (parseEndTag P cd s)
-    else if sw [60, 33, 45, 45] s then some (parseComment cd s)
-    else if sw [60, 63] s then some (parsePi cd s)
-    else if sw [60, 33] s then some (parseHtmlDeclaration cd s)
-    else if 1 < s.length then some (.ok (.data [60]) 1 cd)               -- 180-182
-    else none                                                            -- 183-184 break
+  let r := parseLt P cd s
   match r with
   | none => .brk
   | some .err => .err
@@ -497,12 +509,7 @@ def actLt (P : Params) (end_ : Bool) (cd : Option PStr) (s : PStr) : Act :=
   | some .incomplete =>
     if !end_ then .brk                                                   -- 186-187
     else
-      let k := match findCh 62 (s.drop 1) with                           -- 188-194
-        | some g => 1 + g + 1
-        | none => match findCh 60 (s.drop 1) with
-          | some g => 1 + g
-          | none => 1
-      .adv (.data (s.take k)) k cd true                                  -- 195-199
+      .adv (.data (s.take (forcedEnd s))) (forcedEnd s) cd true          -- 188-199
 
 /-- parser.py:200-214, on the suffix `s` starting with `&#` -/
 def actCharRef (cd : Option PStr) (s : PStr) : Act :=
@@ -539,6 +546,23 @@ structure Out where
   flag : Flag
 deriving Repr
 
+/-- parser.py:168-243: which branch the character at `i` selects, on the non-empty suffix `s1 = rawdata[i:]` -/
+def chooseAct (P : Params) (end_ : Bool) (cd : Option PStr) (s1 : PStr) : Act :=
+  if s1.head? == some 60 then actLt P end_ cd s1
+  else if sw [38, 35] s1 then actCharRef cd s1
+  else if s1.head? == some 38 then actEntityRef end_ cd s1
+  else .err                                                              -- 243 `assert 0`
+
+/-- carrying an action out: the callback (stamped with `getpos()`), `i = updatepos(i, k)`, `continue`/`break`;
+    `pre` = the data callback already made in this turn -/
+def applyAct (pre : List Ev) (s1 : PStr) (pos1 : Nat × Nat) (cd : Option PStr) : Act → List Ev × St × Option Flag
+  | .adv tok len cd' cont =>
+    (pre ++ [⟨tok, s1.take len, pos1⟩], ⟨s1.drop len, updatepos pos1 (s1.take len), cd'⟩,
+      if cont then none else some .ok)
+  | .brk => (pre, ⟨s1, pos1, cd⟩, some .ok)
+  | .err => (pre, ⟨s1, pos1, cd⟩, some .err)
+  | .stuck => (pre, ⟨s1, pos1, cd⟩, some .stuck)
+
 /-- one turn of the `while i < n` loop (parser.py:138-243): events, new state, and whether the loop goes on
     (`none`) or ends with a flag -/
 def step (P : Params) (end_ : Bool) (st : St) : List Ev × St × Option Flag :=
@@ -552,21 +576,8 @@ def step (P : Params) (end_ : Bool) (st : St) : List Ev × St × Option Flag :=
     let pre : List Ev := if 0 < j then [⟨.data (st.s.take j), st.s.take j, st.pos⟩] else []   -- 161-165
     let pos1 := updatepos st.pos (st.s.take j)                           -- 166
     let s1 := st.s.drop j
-    match s1 with
-    | [] => (pre, ⟨s1, pos1, st.cd⟩, some .ok)                           -- 167 break
-    | c :: _ =>
-      let act :=
-        if c == 60 then actLt P end_ st.cd s1
-        else if sw [38, 35] s1 then actCharRef st.cd s1
-        else if c == 38 then actEntityRef end_ st.cd s1
-        else .err                                                        -- 243 `assert 0`
-      match act with
-      | .adv tok len cd' cont =>
-        (pre ++ [⟨tok, s1.take len, pos1⟩], ⟨s1.drop len, updatepos pos1 (s1.take len), cd'⟩,
-          if cont then none else some .ok)
-      | .brk => (pre, ⟨s1, pos1, st.cd⟩, some .ok)
-      | .err => (pre, ⟨s1, pos1, st.cd⟩, some .err)
-      | .stuck => (pre, ⟨s1, pos1, st.cd⟩, some .stuck)
+    if s1.isEmpty then (pre, ⟨s1, pos1, st.cd⟩, some .ok)                -- 167 break
+    else applyAct pre s1 pos1 st.cd (chooseAct P end_ st.cd s1)
 
 /-- the `while` loop with fuel -/
 def loop (P : Params) (end_ : Bool) : Nat → St → Out
